@@ -746,12 +746,21 @@ func ruleTeardown(r *Run) {
 			})
 			r.Check(okSend, rule, fnName(lit), "signal upstream closer", r.P.pos(lit.Pos()), "every path tells the upstream closer goroutine to close the upstream connection", "some exit of a subscription does not signal queryerCloseCh: the upstream connection and its two goroutines leak")
 			okFlag, _ := mustPass(lit.Blocks[0], 0, func(i ssa.Instruction) bool {
+				isTrue := func(v ssa.Value) bool {
+					k, isK := v.(*ssa.Const)
+					return isK && k.Value != nil && k.Value.ExactString() == "true"
+				}
+				// the flag kept as a sync/atomic.Bool: isClosed.Store(true)
+				if c, isCall := i.(*ssa.Call); isCall && calleeName(&c.Call) == "(*sync/atomic.Bool).Store" && len(c.Call.Args) == 2 {
+					fa, ok := c.Call.Args[0].(*ssa.FieldAddr)
+					return ok && fieldOf(fa) != nil && fieldOf(fa).Name() == "isClosed" && isTrue(c.Call.Args[1])
+				}
 				st, isSt := i.(*ssa.Store)
 				if !isSt {
 					return false
 				}
 				fa, ok := st.Addr.(*ssa.FieldAddr)
-				return ok && fieldOf(fa) != nil && fieldOf(fa).Name() == "isClosed"
+				return ok && fieldOf(fa) != nil && fieldOf(fa).Name() == "isClosed" && isTrue(st.Val)
 			})
 			r.Check(okFlag, rule, fnName(lit), "isClosed = true", r.P.pos(lit.Pos()), "every path marks the entry closed", "some exit leaves isClosed false: a later Close() blocks forever on closeCh")
 		}
